@@ -31,6 +31,7 @@ struct Cfg {
     bool simple_polys_only = false;  // only simple polygons (required for OASIS and for fracturing)
     bool long_strings = false;
     bool neg_explicit = true;     // negative ExplicitX/Y coordinates
+    bool force_ongrid = false;    // integer grid coordinates only
 };
 
 struct Ctx {
@@ -369,6 +370,10 @@ inline model::MPoly polygon(Ctx& c, bool allow_big) {
             for (int i = 0; i < n; i++) {
                 dg_t x = ctr.x + (dg_t)llround(rad * 10 * cos(2 * M_PI * i / n));
                 dg_t y = ctr.y + (dg_t)llround(rad * 10 * sin(2 * M_PI * i / n));
+                if (c.cfg.force_ongrid) {
+                    x = canon::rgrid(x) * 10;
+                    y = canon::rgrid(y) * 10;
+                }
                 if (llabs(x % 10) == 5) x += 1;
                 if (llabs(y % 10) == 5) y += 1;
                 p.pts.push_back(Pt{x, y});
@@ -551,6 +556,7 @@ inline model::MRef reference(Ctx& c, const std::string& target, bool by_name) {
 inline model::MLib library(Rng& r, const Cfg& cfg) {
     model::MLib m;
     Ctx c{r, cfg, r.chance(0.5), 2000};
+    if (cfg.force_ongrid) c.offgrid = false;
     if (r.chance(0.15)) c.span = 200000;
     if (r.chance(0.05)) c.span = 50000000;
     m.name = r.chance(0.5) ? "LIB" : ident(r, 1, 14);
